@@ -126,7 +126,7 @@ theorem save_tuple_load {fuel : Nat} (ih : SaveOK hr h fuel) (I : Inv hr h g opn
   rename_i hne
   by_cases hsm : xs.length ≤ 3
   · -- TUPLE1 / TUPLE2 / TUPLE3
-    simp only [hsm, decide_true, if_true] at hsave
+    simp only [hsm, if_true] at hsave
     split at hsave
     · cases hsave
     rename_i st1 hfold
@@ -156,7 +156,7 @@ theorem save_tuple_load {fuel : Nat} (ih : SaveOK hr h fuel) (I : Inv hr h g opn
         (by simp only [ObjRel]; exact hvs.imp fun _ _ => ValRel.mono (Ext.upd (s1.inv.g_none hgn) _))
       exact ⟨_, L2, _, ⟨s1.ext.trans hext, I2, hm2.trans s1.metas, s1.hext.trans hh2⟩, hstk2, upd_self _ _ _⟩
   · -- MARK … TUPLE
-    simp only [hsm, decide_false, if_false, Bool.false_eq_true] at hsave
+    simp only [hsm, if_false] at hsave
     split at hsave
     · cases hsave
     rename_i st1 hfold
